@@ -155,6 +155,13 @@ func (rs *RecordSet) ReadFrom(r io.Reader) (int64, error) {
 		return 4, nil
 	}
 
+	remain := d.remain
+	if int(size) > remain {
+		return 4, fmt.Errorf("record set of size %d exceeds the %d bytes left in the message", size, remain)
+	}
+	// Number of bytes of the enclosing message that follow the record set.
+	trailing := remain - int(size)
+
 	stream := &RecordStream{
 		Records: make([]RecordReader, 0, 4),
 	}
@@ -228,7 +235,7 @@ func (rs *RecordSet) ReadFrom(r io.Reader) (int64, error) {
 
 	d.discardAll()
 	rn := 4 + (int(size) - d.remain)
-	d.remain = limit - rn
+	d.remain += trailing
 	return int64(rn), err
 }
 
